@@ -53,6 +53,15 @@ fn scenarios() -> Vec<Scenario> {
         v.push(Scenario { tracker: "ws", point: "ws_conn", panic: true, after, socket_workers: sw, swarm_workers: ww, index: ANY });
         v.push(Scenario { tracker: "ws", point: "ws_swarm", panic: true, after, socket_workers: sw, swarm_workers: ww, index: ANY });
     }
+    // a worker that cannot set up ONE of its listeners / sockets is a failed worker too: the
+    // address is occupied by a socket without SO_REUSEPORT (setup_v4) or not assigned to any
+    // interface (setup_v6); the other address family of the same worker is fine
+    for tracker in ["http", "udp-mio", "udp-uring"] {
+        for point in ["setup_v4", "setup_v6"] {
+            v.push(Scenario { tracker, point, panic: false, after: 0, socket_workers: 1, swarm_workers: 1, index: ANY });
+        }
+    }
+    v.push(Scenario { tracker: "ws", point: "setup_v4", panic: false, after: 0, socket_workers: 1, swarm_workers: 1, index: ANY });
     v
 }
 
@@ -72,11 +81,25 @@ pub fn case_child(args: &Args) {
             FIRED_AT_MS.store(t0.elapsed().as_millis() as u64 + 1, Ordering::SeqCst);
         }
     })));
-    aquatic_common::verif::set_fault(sc.point, sc.index, sc.panic, sc.after);
+    let setup = sc.point.starts_with("setup_");
+    if !setup {
+        aquatic_common::verif::set_fault(sc.point, sc.index, sc.panic, sc.after);
+    }
     if std::env::var("WD_DEBUG").is_err() {
         std::panic::set_hook(Box::new(|_| {}));
     }
     let port = free_port();
+    // set-up failure scenarios: the fault exists from the start
+    let _occupied_tcp;
+    let _occupied_udp;
+    let v6_host = if sc.point == "setup_v6" { "2001:db8::1" } else { "::1" };
+    if sc.point == "setup_v4" {
+        _occupied_tcp = std::net::TcpListener::bind(("127.0.0.1", port)).ok();
+        _occupied_udp = UdpSocket::bind(("127.0.0.1", port)).ok();
+    }
+    if setup {
+        FIRED_AT_MS.store(1, Ordering::SeqCst);
+    }
     let dir = std::path::PathBuf::from(format!("/verif/.cache/scratch/watchdog-{}", std::process::id()));
     std::fs::create_dir_all(&dir).unwrap();
     let (tx, rx) = mpsc::channel::<(u64, Result<(), String>)>();
@@ -85,7 +108,7 @@ pub fn case_child(args: &Args) {
             let mut c = aquatic_udp::config::Config::default();
             c.socket_workers = sc.socket_workers;
             c.network.address_ipv4 = format!("127.0.0.1:{}", port).parse().unwrap();
-            c.network.address_ipv6 = format!("[::1]:{}", port).parse().unwrap();
+            c.network.address_ipv6 = format!("[{}]:{}", v6_host, port).parse().unwrap();
             c.network.use_io_uring = sc.tracker == "udp-uring";
             c.network.socket_recv_buffer_size = 0;
             c.cleaning.torrent_cleaning_interval = 1;
@@ -104,7 +127,7 @@ pub fn case_child(args: &Args) {
             c.socket_workers = sc.socket_workers;
             c.swarm_workers = sc.swarm_workers;
             c.network.address_ipv4 = format!("127.0.0.1:{}", port).parse().unwrap();
-            c.network.address_ipv6 = format!("[::1]:{}", port).parse().unwrap();
+            c.network.address_ipv6 = format!("[{}]:{}", v6_host, port).parse().unwrap();
             std::thread::spawn(move || {
                 let r = aquatic_http::run(c).map_err(|e| format!("{:#}", e));
                 let _ = tx.send((t0.elapsed().as_millis() as u64, r));
@@ -233,7 +256,7 @@ pub fn run(args: &Args) {
         };
         *header = format!("{}, {}, {}, {}", tracker, cq::nat(sc.socket_workers), cq::nat(sc.swarm_workers), cq::b(sc.tracker == "udp-uring"));
         let worker = match sc.point {
-            "udp_socket" | "http_socket" | "http_conn" | "ws_socket" | "ws_conn" => "WSocket",
+            "udp_socket" | "http_socket" | "http_conn" | "ws_socket" | "ws_conn" | "setup_v4" | "setup_v6" => "WSocket",
             "http_swarm" | "ws_swarm" => "WSwarm",
             "udp_cleaning" => "WCleaning",
             "udp_statistics" => "WStatistics",
